@@ -706,7 +706,8 @@ def finalize(m, tier):
         "rule": "operation sequences (50-300 ops) on one real node: submissions of 16 transaction classes via the pool API "
                 "and via the wire, interleaved with head changes (extension confirming / conflicting with pooled transactions, "
                 "direct state replacement to any stored block or other tip, competing fork overtaking); pool snapshot judged "
-                "after every operation; distinct = distinct (head, pool content) states observed by digest; auxiliary "
-                "real-thread lane sampled through get_state()",
+                "after every operation; refused transactions submitted again; every sequence of 4/5 operations from a 9-operation "
+                "alphabet on a small forked world (exhaustive small scope); distinct = distinct (head, pool content) states observed "
+                "by digest; auxiliary real-thread lane sampled through get_state()",
         "floors": floors, "extra": {},
     }
